@@ -838,6 +838,29 @@ impl BackupManager {
         let manifest_layout = read_manifest_layout(&manifest_path)?;
         let mut entries = Vec::new();
         let mut max_wal_file_id: Option<u64> = None;
+        // Snapshot shipped by this incremental (None when the chain already carries the one the
+        // MANIFEST names).
+        let mut snapshot_file: Option<String> = None;
+        // Newest snapshot already present in the parent chain.
+        let chain_snapshot_file: Option<String> = {
+            let mut current = parent_metadata.clone();
+            loop {
+                if current.snapshot_file.is_some() {
+                    break current.snapshot_file;
+                }
+                let Some(ancestor_id) = current.parent_id else {
+                    break None;
+                };
+                let ancestor_path = self.backup_dir.join(format!("backup_{}.json", ancestor_id));
+                match fs::read_to_string(&ancestor_path)
+                    .ok()
+                    .and_then(|raw| serde_json::from_str::<BackupMetadata>(&raw).ok())
+                {
+                    Some(ancestor) => current = ancestor,
+                    None => break None,
+                }
+            }
+        };
 
         let all_wal_segments = list_wal_segments_in_dir(&self.data_dir)?;
         let modified_since_parent = |path: &Path| -> bool {
@@ -891,6 +914,27 @@ impl BackupManager {
                     a_id.cmp(&b_id).then_with(|| a.cmp(b))
                 });
                 manifest.wal_segments.dedup();
+
+                // The MANIFEST shipped with this incremental may name a snapshot taken after
+                // the parent backup. The WAL segments that snapshot covers have been compacted
+                // away, so the chain is only restorable if the snapshot travels with it.
+                if let Some(snapshot_name) = manifest.latest_snapshot.clone() {
+                    if chain_snapshot_file.as_deref() != Some(snapshot_name.as_str()) {
+                        let snapshot_path = self.data_dir.join(&snapshot_name);
+                        anyhow::ensure!(
+                            snapshot_path.exists(),
+                            "MANIFEST references missing snapshot '{}' in {}",
+                            snapshot_name,
+                            self.data_dir.display()
+                        );
+                        entries.push(ArchiveEntry::from_path(
+                            snapshot_name.clone(),
+                            snapshot_path,
+                        ));
+                        snapshot_file = Some(snapshot_name);
+                    }
+                }
+
                 let manifest_bytes =
                     serde_json::to_vec_pretty(&manifest).context("Failed to serialize MANIFEST")?;
                 entries.push(ArchiveEntry::from_bytes("MANIFEST", manifest_bytes));
@@ -957,7 +1001,7 @@ impl BackupManager {
             parent_id: Some(parent_id),
             description,
             max_wal_file_id,
-            snapshot_file: None,
+            snapshot_file,
         };
 
         // Save metadata
